@@ -130,3 +130,17 @@ def forall(vs, body, patterns=None):
         except z3.Z3Exception:
             pass
     return z3.ForAll(vs, body)
+
+
+def rechecked(fn):
+    """Native check functions: on failure, record how to re-run the same check (for ./check --replay)."""
+    import functools
+
+    @functools.wraps(fn)
+    def wrapper(*args):
+        f = fn(*args)
+        if isinstance(f, dict) and "recheck" not in f:
+            f["recheck"] = {"kind": "fn", "module": fn.__module__, "function": fn.__name__, "args": list(args)}
+        return f
+
+    return wrapper
